@@ -113,7 +113,7 @@ impl Opts {
             max_depth,
             min_depth: 1,
             start_depth: 1,
-            wall_cap_s: if tier == "quick" { 120.0 } else { 1500.0 },
+            wall_cap_s: if tier == "quick" { 120.0 } else { 600.0 },
             state_cap: 40_000_000,
             threads,
             level: "model_checking",
